@@ -468,3 +468,64 @@ Proof.
   - destruct (find_user _ _) as [c|]; [|exact I]. destruct (nth_error _ _); [|exact I].
     destruct (_ && _); [exact I|]. cbn. apply setc_H; [fld|]; auto.
 Qed.
+
+Lemma init_H : Hs None init.
+Proof.
+  unfold Hs. cbn. split; cbn; auto.
+  - intros [|i] x; discriminate.
+  - intros [|i]; discriminate.
+  - discriminate.
+  - intros [|c] o; discriminate.
+  - intros [|c1] c2 o1; discriminate.
+Qed.
+
+Lemma step_H s o s' ev : Hs None s -> step s o = Ok s' ev -> Hs None s'.
+Proof.
+  intros H. unfold step. pose proof (step_core_H s o H) as W.
+  destruct (step_core s o) as [m|]; [|discriminate].
+  apply finish_H in W. destruct (finish m) as [[s1 e1]|]; [|discriminate].
+  intros [= <- _]. hs. auto.
+Qed.
+
+Lemma run_H l : forall s s' ev, Hs None s -> run s l = Some (s', ev) -> Hs None s'.
+Proof.
+  induction l as [|o r IH]; intros s s' ev H; cbn.
+  - intros [= <- _]. auto.
+  - destruct (step s o) as [s1 e1| |] eqn:E; [|eauto|discriminate].
+    destruct (run s1 r) as [[s2 e2]|] eqn:R; [|discriminate]. intros [= <- _].
+    eapply IH; [|eauto]. eapply step_H; eauto.
+Qed.
+
+(* the hygiene theorem in the words of the property:
+   at every state reached by any history, every socket the connector ever created is
+     open (then the connector's registered channel watches exactly this socket), or
+     handed over as the connection (and closed by that connection at most once), or
+     closed by the connector exactly once;
+   no socket is closed twice, none is both closed by the connector and handed over *)
+Definition hygiene (s : st) : Prop :=
+  forall i x, nth_error (socks s) i = Some x ->
+    (x = Open /\ k_chan s = Some (i, true)) \/ x = HandedOver \/ x = HandedClosed 1 \/ x = Closed 1.
+
+Theorem hygiene_all_histories : forall l s ev, run init l = Some (s, ev) -> hygiene s.
+Proof.
+  intros l s ev R. pose proof (run_H l _ _ _ init_H R) as [Hok Hop _ _ _ _].
+  intros i x Hx. destruct (Hok _ _ Hx) as [ -> | [ -> | [ -> | -> ] ] ]; auto.
+  left. split; auto. destruct (Hop _ Hx) as [?|?]; [auto|discriminate].
+Qed.
+
+(* at quiescence of the connector (no channel) no socket is left open *)
+Corollary hygiene_quiescent : forall l s ev, run init l = Some (s, ev) -> k_chan s = None ->
+  forall i x, nth_error (socks s) i = Some x -> x = HandedOver \/ x = HandedClosed 1 \/ x = Closed 1.
+Proof.
+  intros l s ev R Hn i x Hx. destruct (hygiene_all_histories _ _ _ R _ _ Hx) as [[_ E]|?]; auto. congruence.
+Qed.
+
+(* every connection object owns exactly the socket that was handed over for it, and closes it when it dies *)
+Theorem conn_sockets : forall l s ev, run init l = Some (s, ev) ->
+  forall c o, nth_error (conns s) c = Some o ->
+    nth_error (socks s) (csock o) = Some (if calive o then HandedOver else HandedClosed 1) /\
+    (forall c' o', nth_error (conns s) c' = Some o' -> csock o' = csock o -> c' = c).
+Proof.
+  intros l s ev R c o Hc0. pose proof (run_H l _ _ _ init_H R) as [_ _ _ _ Hcn Hin].
+  split; [apply (Hcn _ _ Hc0)|]. intros c' o' H' E. eapply Hin; eauto.
+Qed.
